@@ -32,6 +32,9 @@ Pool == <<
   D("QUOTE", "str", Lits(<<34>>), ""),                                         \* "\""   one character: "
   D("ID",    "pre", <<Set(<<Rng(65, 90), LowR, Ch(95)>>), Star(<<Set(<<DigR, Rng(65, 90), LowR, Ch(95)>>)>>)>>, "$ID"),
   D("PP",    "str", Lits(<<43, 43>>), ""),                                     \* "++"
+  D("VDD",   "pat", <<Lit(118), Set(<<Cls("d")>>), Set(<<Cls("d")>>)>>, ""),           \* /v\d\d/   no operator at all
+  D("ESC",   "pat", <<Lit(43), Lit(43)>>, ""),                                          \* /\+\+/   same language as the literal "++"
+  D("XAB",   "pat", <<Lit(1), Lit(65)>>, ""),                                           \* /\x01A/
   D("IX",    "pat", <<Lit(105), Set(<<LowR>>)>>, ""),                         \* /i[a-z]/
   D("BSL",   "inl", Lits(<<92>>), ""),                                         \* "\\"   one character: \
   D("DIGS",  "pat", <<Plus(<<Set(<<Cls("d")>>)>>)>>, ""),                      \* /\d+/  same language as NUM
@@ -40,7 +43,7 @@ Pool == <<
   D("MINUS", "str", Lits(<<45>>), ""),                                         \* "-"
   D("WS",    "pre", <<Set(<<Ch(9), Ch(10), Ch(13), Ch(32)>>)>>, "$WS"),
   D("SLASHQ","str", Lits(<<47, 34, 92>>), ""),                                 \* "/\"\\"  three characters / " \
-  D("HEX",   "pat", <<Lit(48), Lit(120), Plus(<<Set(<<Cls("xdigit")>>)>>)>>, "")  \* /0x[[:xdigit:]]+/
+  D("HEX",   "pat", <<Lit(48), Lit(120), Plus(<<Set(<<Cls("xdigit")>>)>>)>>, "")   \* /0x[[:xdigit:]]+/
 >>
 
 Idx == 1..PoolSize
